@@ -1,6 +1,6 @@
 //verif:package github.com/kstenerud/go-concise-encoding/internal/verifh/c06
 //verif:config cap=300
-//verif:bounds rules-valid event streams from templates with symbolic payloads, unmarshaled with no template by the real builder Session/BuilderEventReceiver and marshaled again by the real iterator Session: integers in all three event forms over all 64-bit payloads, floats (all bit patterns), booleans, null in containers, strings of 0..3 symbolic ASCII bytes, typed arrays (uint8, uint16, int32, float64 of 0..2 symbolic elements, whole and chunked), lists and maps nested to depth 2 with 1..2 entries, nodes, edges, record types + records (1..2 keys), markers with backward and forward references to scalars, lists and maps, comments and padding between events
+//verif:bounds rules-valid event streams from templates with symbolic payloads, unmarshaled with no template by the real builder Session/BuilderEventReceiver and marshaled again by the real iterator Session: integers in all three event forms over all 64-bit payloads, floats (all bit patterns), booleans, null in containers, strings of 0..3 symbolic ASCII bytes, typed arrays (uint8, uint16, int32, float64 of 0..2 symbolic elements, whole and chunked), lists and maps nested to depth 2 with 1..2 entries, nodes, edges, record types + records (1..3 keys, one or two types; also through the real CBE encoder and decoder), markers with backward and forward references to scalars, lists and maps (one forward reference inside a list that grows by 3..5 elements before its marker arrives), comments and padding between events
 //verif:assume the event streams are delivered directly to the builder after the real rules validator accepted them (the byte decoders are covered by C01/C07); reflect, sync.Map and WaitGroup are the engine's emulation / sequential model; "the same data" is compared on value trees: integers by value, map entries in any order, records as maps over their type's keys, references replaced by their targets, comments and padding dropped. Big numbers, times, media, custom types, resource ids and documents whose marshaled form needs recursion support are not generated
 package c06
 
@@ -8,6 +8,7 @@ import (
 	"math"
 
 	"github.com/kstenerud/go-concise-encoding/builder"
+	"github.com/kstenerud/go-concise-encoding/cbe"
 	"github.com/kstenerud/go-concise-encoding/ce/events"
 	"github.com/kstenerud/go-concise-encoding/configuration"
 	"github.com/kstenerud/go-concise-encoding/internal/verifh"
@@ -48,7 +49,12 @@ func intValue(e verifh.Ev) (ok bool, neg bool, mag uint64) {
 
 // roundTrip validates the stream, unmarshals it into an interface{}, marshals
 // the value again and compares the two value trees.
-func roundTrip(send func(r events.DataEventReceiver)) {
+func roundTrip(send func(r events.DataEventReceiver)) { roundTripVia(send, false) }
+
+// roundTripVia: with throughCBE the stream reaches the builder the way a
+// caller's does, through the real CBE encoder, the document bytes and the real
+// CBE decoder (whose array events hand out a reused buffer).
+func roundTripVia(send func(r events.DataEventReceiver), throughCBE bool) {
 	cfg := configuration.New()
 	sent := &verifh.Rec{}
 	if verifh.Try(func() { send(rules.NewRules(sent, cfg)) }) {
@@ -58,7 +64,16 @@ func roundTrip(send func(r events.DataEventReceiver)) {
 	verifrt.Assert(okWant, "harness: the sent stream parses as a value tree")
 
 	b := builder.NewSession(nil, cfg).NewBuilderFor(nil)
-	failed := verifh.Try(func() { send(b) })
+	var failed bool
+	if throughCBE {
+		sink := &verifh.Sink{}
+		enc := cbe.NewEncoder(cfg)
+		enc.PrepareToEncode(sink)
+		send(enc)
+		failed = cbe.NewDecoder(cfg).DecodeDocument(sink.Buf, rules.NewRules(b, cfg)) != nil
+	} else {
+		failed = verifh.Try(func() { send(b) })
+	}
 	verifrt.Reach("unmarshaled")
 	verifrt.Assert(!failed, "a rules-valid document unmarshals into an untyped value without error")
 	if failed {
@@ -150,12 +165,15 @@ func Verif_C06_Strings() {
 	s := ascii("s", verifrt.Choice("len", 4))
 	pos := verifrt.Choice("pos", 4)
 	chunked := verifrt.Choice("chunked", 2) == 1
+	c := 0
+	if chunked {
+		c = verifrt.Choice("split", len(s)+1)
+	}
 	roundTrip(position(pos, func(r events.DataEventReceiver) {
 		if !chunked {
 			r.OnStringlikeArray(events.ArrayTypeString, string(s))
 			return
 		}
-		c := verifrt.Choice("split", len(s)+1)
 		r.OnArrayBegin(events.ArrayTypeString)
 		r.OnArrayChunk(uint64(c), true)
 		if c > 0 {
@@ -178,12 +196,15 @@ func Verif_C06_TypedArrays() {
 	data := verifrt.Bytes("d", n*w)
 	pos := verifrt.Choice("pos", 3)
 	chunked := verifrt.Choice("chunked", 2) == 1
+	c := 0
+	if chunked {
+		c = verifrt.Choice("split", n+1)
+	}
 	roundTrip(position(pos, func(r events.DataEventReceiver) {
 		if !chunked {
 			r.OnArray(at, uint64(n), data)
 			return
 		}
-		c := verifrt.Choice("split", n+1)
 		r.OnArrayBegin(at)
 		r.OnArrayChunk(uint64(c), true)
 		if c > 0 {
@@ -282,12 +303,54 @@ func ident(tag string, n int) []byte {
 	return b
 }
 
-func Verif_C06_Records() {
+func Verif_C06_Records() { records(false) }
+
+// Records whose keys arrive as the decoder delivers them (array events over
+// the decoder's buffer), small payloads to keep the CBE integer forms few.
+func Verif_C06_RecordsThroughCBE() { records(true) }
+
+func records(throughCBE bool) {
 	id := ident("id", verifrt.Choice("idlen", 2)+1)
 	a, b := verifrt.U64("a"), verifrt.U64("b")
+	if throughCBE {
+		verifrt.Assume(a < 256 && b < 256)
+	}
 	k1, k2 := ascii("k1", 1), ascii("k2", 1)
-	which := verifrt.Choice("which", 3)
-	roundTrip(func(r events.DataEventReceiver) {
+	which := verifrt.Choice("which", 4)
+	verifrt.Known("KF-C06-record-keys-alias-decoder-buffer", throughCBE)
+	verifrt.Known("KF-C06-record-types-share-key-list", which == 3)
+	if which == 3 {
+		// two record types, records of both: each record gets its own type's keys
+		id2 := ident("id2", 1)
+		verifrt.Assume(len(id) != 1 || id[0] != id2[0])
+		roundTripVia(func(r events.DataEventReceiver) {
+			r.OnBeginDocument()
+			r.OnVersion(0)
+			r.OnRecordType(id)
+			r.OnPositiveInt(1)
+			r.OnStringlikeArray(events.ArrayTypeString, string(k1))
+			r.OnEndContainer()
+			r.OnRecordType(id2)
+			r.OnPositiveInt(7)
+			r.OnPositiveInt(8)
+			r.OnStringlikeArray(events.ArrayTypeString, string(k2))
+			r.OnEndContainer()
+			r.OnList()
+			r.OnRecord(id)
+			r.OnPositiveInt(a)
+			r.OnTrue()
+			r.OnEndContainer()
+			r.OnRecord(id2)
+			r.OnNull()
+			r.OnPositiveInt(b)
+			r.OnFalse()
+			r.OnEndContainer()
+			r.OnEndContainer()
+			r.OnEndDocument()
+		}, throughCBE)
+		return
+	}
+	roundTripVia(func(r events.DataEventReceiver) {
 		r.OnBeginDocument()
 		r.OnVersion(0)
 		r.OnRecordType(id)
@@ -320,14 +383,18 @@ func Verif_C06_Records() {
 			r.OnEndContainer()
 		}
 		r.OnEndDocument()
-	})
+	}, throughCBE)
 }
 
 func Verif_C06_References() {
 	id := ident("id", verifrt.Choice("idlen", 2)+1)
 	a := verifrt.U64("a")
-	which := verifrt.Choice("which", 6)
+	which := verifrt.Choice("which", 7)
 	verifrt.Known("KF-C06-reference-as-map-key", which == 5)
+	n := 0
+	if which == 6 {
+		n = verifrt.Choice("moreElements", 3) + 3 // 3..5 further elements: crosses the slice's first reallocation
+	}
 	roundTrip(doc(func(r events.DataEventReceiver) {
 		switch which {
 		case 0: // backward reference to a scalar
@@ -368,6 +435,16 @@ func Verif_C06_References() {
 			r.OnList()
 			r.OnPositiveInt(a)
 			r.OnEndContainer()
+			r.OnEndContainer()
+		case 6: // forward reference early in a list that keeps growing before the marker arrives
+			r.OnList()
+			r.OnPositiveInt(1)
+			r.OnReferenceLocal(id)
+			for i := 0; i < n; i++ {
+				r.OnPositiveInt(uint64(i) + 10)
+			}
+			r.OnMarker(id)
+			r.OnPositiveInt(a)
 			r.OnEndContainer()
 		case 5: // reference as a map key (to a keyable value)
 			r.OnList()
